@@ -4,7 +4,10 @@
    op 3  tilt lists and shifts of the fields of several plane chains (Wavefront(tilt=) * planes ...),
          planes carrying either an explicit .tilt list or the result of a fit history
    op 4  the OPD ramp standing for Tilt(x=a, y=b) on an m x n plane
-   op 5  the window propagate_dft evaluates for a field with a given tilt shift, and the shift handed to dft2 *)
+   op 5  the window propagate_dft evaluates for a field with a given tilt shift, and the shift handed to dft2
+   op 6  the propagate_fft guard (NotImplementedError iff some field carries tilt bookkeeping) for several chains
+   op 7  the entry of fit_tilt (plane kind, mask present, inplace): plane handed back and receiver afterwards
+   op 8  DispersiveTilt's constructor: refused / first order (modelled) / higher order *)
 From LV Require Import Extract.FieldCodec Model.Tilt.
 Require Import ExtrOcamlBasic.
 
@@ -89,6 +92,29 @@ Definition run (inp : list Z) : list Z :=
         0 :: eopt (fun w : (Z * Z) * (Z * Z) * (Qc * Qc) =>
                      let '((ir, ic), (isr, isc), (shr, shc)) := w in [ir; ic; isr; isc] ++ eQ shr ++ eQ shc)
                   (tilted_window e pr pc sr sc)
+    | None => emalformed end
+  | 6 :: rest =>   (* propagate_fft guard for several chains *)
+    match pall (plist (ppair (popt (plist pQ)) (plist pcelem))) rest with
+    | Some cs =>
+        0 :: elist (fun c : option (list Qc) * list (result celem) =>
+          eresult (fun _ : unit => [])
+            (rbind (wavefront_tilt (fst c)) (fun w0 =>
+             rbind (rseq (snd c)) (fun es' => fft_guard (chain_tilts w0 es')))) ) cs
+    | None => emalformed end
+  | 7 :: rest =>   (* the entry of fit_tilt: plane kind, has a 2-d mask, inplace, the plane *)
+    match pall (k <- pZ ;; hm <- pbool ;; ip <- pbool ;; p <- pqplane ;; pret (k, hm, ip, p)) rest with
+    | Some (k, hm, ip, p) =>
+        eresult (fun qr : qplane * qplane => eqplane (fst qr) ++ eqplane (snd qr))
+          (fit_tilt_call (if k =? 0 then KPlane else if k =? 1 then KPupil else KImage) hm ip p)
+    | None => emalformed end
+  | 8 :: rest =>   (* DispersiveTilt constructor *)
+    match pall (tr <- plist pQ ;; di <- plist pQ ;; root <- pQ ;; pret (tr, di, root)) rest with
+    | Some (tr, di, root) =>
+        0 :: match mk_disp tr di root with
+             | DispRefused => [0]
+             | DispFirst t => 1 :: etilt t
+             | DispHigher => [2]
+             end
     | None => emalformed end
   | _ => emalformed
   end.
